@@ -10,6 +10,7 @@ import (
 	"path/filepath"
 	"runtime/debug"
 	"sort"
+	"strconv"
 	"strings"
 	"testing"
 
@@ -46,6 +47,11 @@ type Prop[M any] struct {
 	Rule     string
 	Assume   []string
 	Floors   map[string]float64
+	// Sweep, when set, is a fixed list of generated models (generator examples with some
+	// coordinates enumerated instead of drawn) evaluated before the random tier, split across
+	// shards. It guarantees that every stratum the random tier only visits by chance is visited
+	// on every run. Items are small by construction, so a failing one is saved unshrunk.
+	Sweep func() []M
 }
 
 // safeCheck turns a panic inside the code under test into a violation of its own class,
@@ -206,6 +212,30 @@ func Run[M any](t *testing.T, p Prop[M]) {
 	}
 	if os.Getenv("VERIF_NOGEN") != "" {
 		return
+	}
+
+	if p.Sweep != nil {
+		shard, _ := strconv.Atoi(os.Getenv("VERIF_SHARD"))
+		shards, _ := strconv.Atoi(os.Getenv("VERIF_SHARDS"))
+		if shards < 1 {
+			shards = 1
+		}
+		failed := false
+		for i, m := range p.Sweep() {
+			if i%shards != shard%shards {
+				continue
+			}
+			rec.Label("sweep-item", 1)
+			for _, v := range evaluate(m, true) {
+				path := writeReplay(m, v)
+				rec.Violation(ev.Violation{Signature: v.Signature, Message: v.Message, Replay: path})
+				t.Errorf("sweep item %d: %s", i, v)
+				failed = true
+			}
+		}
+		if failed {
+			return
+		}
 	}
 
 	// Generated tier. The last failing model seen is the shrunk one (rapid re-runs the
